@@ -27,6 +27,15 @@ type Result struct {
 	SimTimeMs  int64            `json:"sim_ms"`
 	Nontrivial bool             `json:"nontrivial"`
 	Invalid    bool             `json:"invalid,omitempty"` // plan is not a meaningful case (shrink candidates)
+	// Evals is the number of executions this result stands for (fault
+	// enumeration runs many fault positions for one workload plan).
+	Evals int64 `json:"evals,omitempty"`
+	// SubPlan, when set on a violation, is the specific single-fault plan that
+	// failed inside an enumeration; it is what gets saved, shrunk and replayed.
+	SubPlan *Plan `json:"-"`
+	// NontrivialKeys are hashes of the distinct non-trivial cases covered (for
+	// enumerating plans); empty means the plan body hash is used.
+	NontrivialKeys []uint64 `json:"-"`
 	Tail       []string         `json:"tail,omitempty"`
 }
 
@@ -93,6 +102,12 @@ func runOne(t *testing.T, c *Check, p *Plan) (res *Result) {
 	}
 	if res == nil {
 		res = &Result{Key: "harness/nil-result"}
+	}
+	if res.Hash == "" {
+		res.Hash = HashBytes([]byte(res.Key + "|" + res.Detail))
+	}
+	if res.Evals == 0 {
+		res.Evals = 1
 	}
 	return res
 }
@@ -435,8 +450,11 @@ func search(t *testing.T, c *Check, tier, out string) {
 		case progress <- struct{}{}:
 		default:
 		}
-		wo.Runs++
+		wo.Runs += r.Evals
 		wo.LastSeed = s
+		if r.SubPlan != nil && r.Key != "" {
+			p = r.SubPlan
+		}
 		wo.SimMs += r.SimTimeMs
 		for k, v := range r.Stats {
 			wo.Stats[k] += v
@@ -445,8 +463,15 @@ func search(t *testing.T, c *Check, tier, out string) {
 			wo.Invalid++
 		}
 		if r.Nontrivial {
-			wo.Nontrivial++
-			hashes = binary.LittleEndian.AppendUint64(hashes, p.BodyHash())
+			if len(r.NontrivialKeys) > 0 {
+				wo.Nontrivial += int64(len(r.NontrivialKeys))
+				for _, h := range r.NontrivialKeys {
+					hashes = binary.LittleEndian.AppendUint64(hashes, h)
+				}
+			} else {
+				wo.Nontrivial++
+				hashes = binary.LittleEndian.AppendUint64(hashes, p.BodyHash())
+			}
 		}
 		inters = binary.LittleEndian.AppendUint64(inters, r.Inter)
 		states = binary.LittleEndian.AppendUint64(states, r.State)
